@@ -43,16 +43,50 @@ func isRelatedReset(i ssa.Instruction) bool {
 	if name != "Reset" || recv == nil {
 		return false
 	}
-	return core.DerivesFrom(recv, func(v ssa.Value) bool {
-		cl, ok := v.(*ssa.Call)
-		if !ok {
-			return false
+	return isRelatedDataValue(recv, 0)
+}
+
+// relResetProg: the program under analysis (set by the rule; used to find the call sites of a helper).
+var relResetProg *core.Prog
+
+// isRelatedDataValue: v is what a RelatedData() accessor returned — directly, or as the parameter of a helper
+// every call site of which passes such a value.
+func isRelatedDataValue(v ssa.Value, depth int) bool {
+	return core.DerivesFrom(v, func(x ssa.Value) bool {
+		switch y := x.(type) {
+		case *ssa.Call:
+			if y.Call.IsInvoke() {
+				return y.Call.Method.Name() == "RelatedData"
+			}
+			f := core.CalleeObj(y)
+			return f != nil && f.Name() == "RelatedData"
+		case *ssa.Parameter:
+			if relResetProg == nil || depth > 2 || y.Parent() == nil {
+				return false
+			}
+			idx := -1
+			for k, q := range y.Parent().Params {
+				if q == y {
+					idx = k
+				}
+			}
+			sites, all := 0, true
+			for _, g := range arrowRecordFuncs(relResetProg) {
+				core.EachCall(g, func(ci ssa.CallInstruction) {
+					callee := ci.Common().StaticCallee()
+					// the body of a generic helper is looked at once, uninstantiated: its call sites name its instances
+					if callee == nil || (callee != y.Parent() && callee.Origin() != y.Parent()) || idx < 0 || idx >= len(ci.Common().Args) {
+						return
+					}
+					sites++
+					if !isRelatedDataValue(ci.Common().Args[idx], depth+1) {
+						all = false
+					}
+				})
+			}
+			return sites > 0 && all
 		}
-		if cl.Call.IsInvoke() {
-			return cl.Call.Method.Name() == "RelatedData"
-		}
-		f := core.CalleeObj(cl)
-		return f != nil && f.Name() == "RelatedData"
+		return false
 	})
 }
 
@@ -81,6 +115,7 @@ func alwaysResetsRelated(fn *ssa.Function, depth int) bool {
 
 func c08_14(c *core.Ctx, p *core.Prog) {
 	n := 0
+	relResetProg = p
 	for _, fn := range arrowRecordFuncs(p) {
 		if fn.Synthetic != "" && fn.Origin() == nil {
 			continue
